@@ -3,11 +3,15 @@
 package connectconformance
 
 import (
+	"context"
 	"errors"
 	"fmt"
+	"io"
 	"os"
 	"path/filepath"
 	"sync"
+	"sync/atomic"
+	"time"
 
 	"connectrpc.com/conformance/internal"
 	conformancev1 "connectrpc.com/conformance/internal/gen/proto/go/connectrpc/conformance/v1"
@@ -226,4 +230,123 @@ func VerifC04Batches(suitePath string, suiteYAML, cfgYAML string) ([][]string, e
 		}
 	}
 	return out, nil
+}
+
+// VerifC04InObs is what VerifC04InProc observed.
+type VerifC04InObs struct {
+	OK      bool     // the verdict as Run forms it: report() && the client's final wait returned nil
+	Report  bool     // report()'s verdict
+	WaitErr string   // "" | error text of waitForResponses | "hang"
+	Lines   []string // everything report() printed
+	Rets    []string // per case: what the real sendRequest returned: ok | closed | dup | fail | unsent
+	Cbs     []int    // per case: invocations of the completion callback
+	Panics  []string
+	Hang    bool
+}
+
+// VerifC04InProc is one whole run in one process, nothing scripted between the pieces under test:
+// the real runClient / clientProcessRunner over the real pipes of an in-process scripted client (the
+// client program of C11's op "inproc": it reads requests, answers some of them, returns), the real
+// runTestCasesForServer against an in-process server (runInProcess, as both reference servers are
+// run), testResults with tries built from the given known-failing / known-flaky patterns, and then
+// what run() / Run do after the last batch: closeSend, waitForResponses, report, verdict =
+// report && err == nil.  An in-process client that returns nil closes its pipes at once: the reader
+// sees a clean end of stream while requests it accepted are still unanswered.
+func VerifC04InProc(spec VerifC11InSpec, knownFailing, knownFlaky []string) VerifC04InObs {
+	n := len(spec.Names)
+	cases := make([]*conformancev1.TestCase, n)
+	mux := &verifC11InMux{idx: map[string]int{}, rets: make([]string, n), cbs: make([]int, n), fired: make([]chan struct{}, n), once: make([]sync.Once, n)}
+	for i, name := range spec.Names {
+		cases[i] = &conformancev1.TestCase{
+			Request:          &conformancev1.ClientCompatRequest{TestName: name},
+			ExpectedResponse: &conformancev1.ClientResponseResult{Payloads: []*conformancev1.ConformancePayload{{Data: []byte("data")}}},
+		}
+		if _, dup := mux.idx[name]; dup {
+			panic("c04 inproc: batch names must be distinct")
+		}
+		mux.idx[name] = i
+		mux.rets[i] = "unsent"
+		mux.fired[i] = make(chan struct{})
+	}
+	kf := parsePatterns(knownFailing)
+	if kf == nil {
+		kf = &testTrie{} // as Run does
+	}
+	kl := parsePatterns(knownFlaky)
+	if kl == nil {
+		kl = &testTrie{}
+	}
+	results := newResults(n, kf, kl, nil)
+	obs := VerifC04InObs{Panics: []string{}}
+
+	server := func(ctx context.Context, _ []string, in io.ReadCloser, out, _ io.WriteCloser) error {
+		req := &conformancev1.ServerCompatRequest{}
+		if err := internal.ReadDelimitedMessage(in, req, "runner", 10*time.Second, maxServerResponseSize); err != nil {
+			return err
+		}
+		if err := internal.WriteDelimitedMessage(out, &conformancev1.ServerCompatResponse{Host: "127.0.0.1", Port: 12345}); err != nil {
+			return err
+		}
+		<-ctx.Done()
+		return nil
+	}
+	var awaitTimeout atomic.Bool
+	clientCtx, clientCancel := context.WithCancel(context.Background())
+	defer clientCancel()
+	runner, err := runClient(clientCtx, runInProcess([]string{"verif-client"}, verifC11InClient(&spec, mux, &awaitTimeout)))
+	if err != nil {
+		panic(fmt.Sprintf("c04 inproc: runClient: %v", err))
+	}
+	mux.inner = runner
+	defer func() { go runner.stop() }()
+
+	meta := serverInstance{protocol: conformancev1.Protocol_PROTOCOL_CONNECT, httpVersion: conformancev1.HTTPVersion_HTTP_VERSION_1}
+	done := make(chan struct{})
+	go func() {
+		defer close(done)
+		defer func() {
+			if r := recover(); r != nil {
+				mux.mu.Lock()
+				mux.panics = append(mux.panics, "batch")
+				mux.mu.Unlock()
+			}
+		}()
+		runTestCasesForServer(context.Background(), false, spec.IsRef, meta, cases, nil, nil,
+			runInProcess([]string{"verif-server"}, server), verifNopPrinter{}, verifNopPrinter{}, results, mux, nil, false)
+	}()
+	timeout := spec.TimeoutS
+	if timeout <= 0 {
+		timeout = 30
+	}
+	select {
+	case <-done:
+	case <-time.After(time.Duration(timeout) * time.Second):
+		obs.Hang = true
+		return obs
+	}
+	// run(): after the last batch
+	runner.closeSend()
+	waited := make(chan error, 1)
+	go func() { waited <- runner.waitForResponses() }()
+	var waitErr error
+	select {
+	case waitErr = <-waited:
+		if waitErr != nil {
+			obs.WaitErr = waitErr.Error()
+		}
+	case <-time.After(30 * time.Second):
+		obs.WaitErr = "hang"
+		waitErr = errors.New("hang")
+	}
+	// Run(): results.report(logPrinter) && err == nil
+	p := &verifC04Printer{}
+	obs.Report = results.report(p)
+	obs.OK = obs.Report && waitErr == nil
+	obs.Lines = p.lines
+	mux.mu.Lock()
+	defer mux.mu.Unlock()
+	obs.Rets = append([]string{}, mux.rets...)
+	obs.Cbs = append([]int{}, mux.cbs...)
+	obs.Panics = append(obs.Panics, mux.panics...)
+	return obs
 }
